@@ -173,3 +173,35 @@ pub fn generate(out: &mut Out, prop: u32, tier: &str, rng: &mut Rng) {
         }
     }
 }
+
+/// C03 on arrays of up to 2^64-1 zero-sized cells: windows at the corners and edges of huge
+/// parents (where `end.1 * stride + end.0` leaves 64 bits although every cell index fits),
+/// observed through the dimensions the row / column iterators report
+pub fn generate_views(out: &mut Out, prop: u32, tier: &str, rng: &mut Rng) {
+    let mut shapes: Vec<(u64, u64)> = vec![
+        (u64::MAX, 1), (1, u64::MAX), (1 << 32, (1 << 32) - 1), ((1 << 32) - 1, 1 << 32), (1 << 32, 1 << 31), (3, 1 << 62),
+        (1 << 62, 3), ((1 << 21) + 1, 1 << 42), (65537, 65539), (1 << 63, 1), (1, 1 << 63), (5, 4), (0, 0),
+        (6148914691236517205, 3), (3, 6148914691236517205), (4294967295, 4294967297)];
+    if tier != "quick" { for _ in 0..20 { let a = 1 + rng.below(62); let b = rng.below(64 - a); shapes.push(((1u64 << a) + rng.below(3), (1u64 << b).saturating_sub(rng.below(2)).max(1))); } }
+    let nrand = if tier == "quick" { 6 } else { 40 };
+    for (c, r) in shapes {
+        if (c as u128) * (r as u128) >= (1u128 << 64) { continue; }
+        let mut wins: Vec<(u64, u64, u64, u64)> = vec![(0, 0, c, r), (0, 0, 0, 0), (c, r, c, r), (c / 2, r / 2, c / 2, r), (0, r, c, r)];
+        if c >= 2 && r >= 2 { wins.extend([(c - 2, r - 2, c, r), (c - 1, r - 1, c, r), (0, r - 1, c, r), (c - 1, 0, c, r), (1, 1, c - 1, r - 1), (0, 0, 1, 1), (c - 2, 0, c - 1, r)]); }
+        if c >= 1 && r >= 1 { wins.extend([(c - 1, r - 1, c, r), (0, r - 1, 1, r), (c - 1, 0, c, 1)]); }
+        // rejected: start past end, end past the array (also by wrapping amounts)
+        wins.extend([(1, 0, 0, r), (0, 1, c, 0), (0, 0, c.wrapping_add(1), r), (0, 0, c, r.wrapping_add(1)), (0, 0, u64::MAX, r), (0, 0, c, u64::MAX), (u64::MAX, u64::MAX, u64::MAX, u64::MAX)]);
+        for _ in 0..nrand {
+            let (s0, s1) = (upto(rng, c), upto(rng, r));
+            wins.push((s0, s1, s0 + upto(rng, c - s0), s1 + upto(rng, r - s1)));
+        }
+        for win in wins { for recv in [1u64, 2, 3] { for mutable in [false, true] {
+            if mutable && recv != 2 { continue; }
+            let nc = win.2.saturating_sub(win.0);
+            emit(out, prop, &ICase { recv, mutable, c, r, win, kind: 0, col: 0, calls: vec![(4, 0), (0, 0), (4, 0), (1, 0), (4, 0)], term: 0 });
+            for col in [0, nc.saturating_sub(1), nc] {
+                emit(out, prop, &ICase { recv, mutable, c, r, win, kind: 1, col, calls: vec![(4, 0), (0, 0), (1, 0), (4, 0)], term: 0 });
+            }
+        } } }
+    }
+}
